@@ -289,4 +289,51 @@ theorem lex_total (dd : Dialect) (ac : Bool) (l : List Frame) :
   | case3 l h => obtain ⟨_, _, e, _⟩ := scan_total dd l; rw [h] at e; cases e
   | case4 l h => obtain ⟨_, _, e, _⟩ := scan_total dd l; rw [h] at e; cases e
 
+/-- the parser sets `ForceEOF` on the tokenizer it was given (the outermost one) -/
+def setForceEOF : List Frame → List Frame
+  | f :: r => { f with forceEOF := true } :: r
+  | [] => []
+
+theorem mu_setForceEOF (l : List Frame) : mu (setForceEOF l) = mu l := by
+  cases l <;> rfl
+
+def applyForce (force : Option Nat) (l : List Frame) : List Frame := if force = some 0 then setForceEOF l else l
+
+theorem mu_applyForce (force : Option Nat) (l : List Frame) : mu (applyForce force l) = mu l := by
+  unfold applyForce; split
+  · exact mu_setForceEOF l
+  · rfl
+
+/-- the stream the parser sees: `for { tok := Lex(); if tok == 0 { break } }`; `force = some k`: after `k` tokens the
+parser sets `ForceEOF` (the grammar does so for statements it does not parse further). -/
+def lexFrom (dd : Dialect) (allowComments : Bool) (force : Option Nat) (l : List Frame) : Out (List (Token × Nat)) :=
+  match h : lex dd allowComments (applyForce force l) with
+  | .ok (t, l') =>
+    let p := (l'.head?.map (·.pos)).getD 0
+    if hc : t.typ = .eof then .ok [(t, p)]
+    else
+      match lexFrom dd allowComments (force.map (· - 1)) l' with
+      | .ok ts => .ok ((t, p) :: ts)
+      | .err => .err
+      | .panic => .panic
+  | .err => .err
+  | .panic => .panic
+termination_by mu l
+decreasing_by
+  obtain ⟨t1, l1, e, _, g⟩ := lex_total dd allowComments (applyForce force l)
+  rw [h] at e; injection e with e; injection e with ea eb; subst ea; subst eb
+  have := g hc
+  rw [mu_applyForce] at this; exact this
+
+
+/-- the parser's loop ends without panic, whatever it does with `ForceEOF` and comments -/
+theorem lexFrom_total (dd : Dialect) (ac : Bool) (force : Option Nat) (l : List Frame) : ∃ ts, lexFrom dd ac force l = .ok ts := by
+  fun_induction lexFrom dd ac force l with
+  | case1 => exact ⟨_, rfl⟩
+  | case2 _ _ _ _ _ _ _ ts hrec => exact ⟨_, rfl⟩
+  | case3 _ _ _ _ _ _ hrec ih => obtain ⟨ts, e⟩ := ih; rw [hrec] at e; cases e
+  | case4 _ _ _ _ _ _ hrec ih => obtain ⟨ts, e⟩ := ih; rw [hrec] at e; cases e
+  | case5 force l h => obtain ⟨_, _, e, _⟩ := lex_total dd ac (applyForce force l); rw [h] at e; cases e
+  | case6 force l h => obtain ⟨_, _, e, _⟩ := lex_total dd ac (applyForce force l); rw [h] at e; cases e
+
 end AcraModel.Sql.Tokenizer
